@@ -8,4 +8,14 @@ package core
 func MaxUint32(a uint32, b uint32) (r uint32)
   ensures r == max(a, b)
   assigns nothing
+
+func GetPBFTThreshold(consensusSize int) (r int)
+  requires 0 <= consensusSize && consensusSize <= 4611686018427387903
+  ensures  two-thirds-plus-one: r == consensusSize*2/3 + 1
+  assigns  nothing
+
+func GetPBFTFallbackThreshold(consensusSize int) (r int)
+  requires 0 <= consensusSize && consensusSize <= 4611686018427387903
+  ensures  half-plus-one: r == consensusSize/2 + 1
+  assigns  nothing
 @*/
